@@ -51,8 +51,7 @@ Proof. intros f e x A B. unfold rd32. rewrite !grow_at_low by lia. reflexivity. 
 
 Lemma load32_in : forall f o, o + 4 <= b_len f -> load32 f o = Some (rd32 f o).
 Proof.
-  intros f o A. unfold load32. destruct (b_len f <=? o) eqn:Q1; bsimp; [exfalso; lia|].
-  destruct (b_len f <? o + 4) eqn:Q2; bsimp; [exfalso; lia|reflexivity].
+  intros f o A. unfold load32. destruct (b_len f <? o + 4) eqn:Q2; bsimp; [exfalso; lia|reflexivity].
 Qed.
 
 Lemma fnv_lt : forall name, fnv name < 512.
@@ -65,7 +64,7 @@ Proof. intros H name. pose proof (fnv_lt name). rconsts. lia. Qed.
 Lemma entry_at_nofault : forall f H off, entry_at f H off <> EFault.
 Proof.
   intros f H off. unfold entry_at.
-  destruct ((off <? H + c_hashOff) || (b_len f <? off + 16)) eqn:G; [discriminate|]. bsimp.
+  destruct ((off <? H + c_hashOff) || negb (off mod 8 =? 0) || (b_len f <? off + 16)) eqn:G; [discriminate|]. bsimp.
   rewrite (load32_in f (off + 8)) by lia.
   destruct (_ || _); [discriminate|]. rewrite (load32_in f (off + 12)) by lia. discriminate.
 Qed.
@@ -118,7 +117,7 @@ Proof.
   destruct (entry_at f H off) as [nl nx| |] eqn:Ee; try discriminate.
   destruct (name_eqb f off nl name).
   - inversion E; subst o. unfold entry_at in Ee.
-    destruct ((off <? H + c_hashOff) || (b_len f <? off + 16)) eqn:G; [discriminate|]. bsimp.
+    destruct ((off <? H + c_hashOff) || negb (off mod 8 =? 0) || (b_len f <? off + 16)) eqn:G; [discriminate|]. bsimp.
     destruct (load32 f (off + 8)) as [w|]; [|discriminate].
     destruct ((w mod 16777216 =? 0) || (b_len f <? off + 16 + w mod 16777216)) eqn:G2; [discriminate|]. bsimp.
     remember (w mod 16777216) as nl0. lia.
